@@ -1282,7 +1282,9 @@ func (e *ObjectConsExpr) Value(ctx *hcl.EvalContext) (cty.Value, hcl.Diagnostics
 	}
 
 	if !known {
-		return cty.DynamicVal, diags
+		// The keys that were seen still contributed their marks: a result
+		// that is unknown because of an unknown key depends on them too.
+		return cty.DynamicVal.WithMarks(marks...), diags
 	}
 
 	return cty.ObjectVal(vals).WithMarks(marks...), diags
